@@ -42,10 +42,14 @@ fn dlog<G: HasPool>(p: &DlogPt) -> Z {
 pub struct PairCase {
     pub p: DlogPt,
     pub q: DlogPt,
+    /// Jacobian representatives in which the same points are handed to Engine::pairing as PROJECTIVE values
+    /// (the engine converts them: an inversion of Z in Fq resp. Fq2)
+    #[serde(default)]
+    pub reps: Option<(RepR, RepR)>,
 }
 
 fn pair_strategy() -> BoxedStrategy<PairCase> {
-    (dlog_strategy(), dlog_strategy()).prop_map(|(p, q)| PairCase { p, q }).boxed()
+    (dlog_strategy(), dlog_strategy(), proptest::option::weighted(0.6, (rep_strategy(), rep_strategy()))).prop_map(|(p, q, reps)| PairCase { p, q, reps }).boxed()
 }
 
 fn classify(c: &PairCase, a: &Z, b: &Z, info: &mut Info) {
@@ -79,6 +83,16 @@ fn check_relations(c: &PairCase, info: &mut Info) -> Result<(), String> {
     let is_one = e == Fq12::one();
     if is_one != (pm.is_inf() || qm.is_inf()) {
         return Err(format!("e(P,Q) = 1 must hold exactly when P or Q is the identity (a = 0x{:x}, b = 0x{:x}, e = 1: {})", a, b, is_one));
+    }
+    // the same points as projective values in generated representatives
+    if let Some((rp_, rq_)) = &c.reps {
+        let pj = rep_build::<G1m>(&pm, rp_);
+        let qj = rep_build::<G2m>(&qm, rq_);
+        let ej = fq12_m(&cr("Engine::pairing (projective arguments)", || Bls12::pairing(pj, qj))?);
+        if ej != want {
+            return Err(format!("e(P,Q) for projective arguments in the representatives {:?}, {:?} differs from e(g1,g2)^(ab) (a = 0x{:x}, b = 0x{:x})", rp_, rq_, a, b));
+        }
+        info.class("projective-arguments-in-generated-representatives");
     }
     // both call directions
     let e1_ = fq12_m(&cr("G1Affine::pairing_with", || pc.pairing_with(&qc))?);
